@@ -29,12 +29,18 @@ type ival struct{ a, b time.Duration }
 // are extended by it: the bounds speak of store latency, not of preemption the
 // harness itself manufactures.
 func (v *View) slack(a, b time.Duration) time.Duration {
-	if v.Spec.YieldP <= 0 {
-		return 0
-	}
 	var sum time.Duration
-	for _, e := range v.yields {
-		if e.VT >= a-v.Spec.YieldMax && e.VT <= b {
+	if v.Spec.YieldP > 0 {
+		for _, e := range v.yields {
+			if e.VT >= a-v.Spec.YieldMax && e.VT <= b {
+				sum += time.Duration(e.N)
+			}
+		}
+	}
+	// user code (logger, metrics sink, health checker) held by the harness for a stretch of
+	// virtual time delays whatever the library was doing there, just like a yield
+	for _, e := range v.holds {
+		if e.VT+time.Duration(e.N) >= a && e.VT <= b {
 			sum += time.Duration(e.N)
 		}
 	}
